@@ -75,6 +75,7 @@ class Interp:
         self.nuniq = 0
         self.unique_sites: list = []
         self._seen_nodes: set[int] = set()
+        self.last_gathers: dict[int, bool] = {}
 
     # ---------------------------------------------------------------- constraints
     def need(self, kind: str, ok: bool, node: ast.AST, msg: str, **facts) -> None:
@@ -143,6 +144,8 @@ class Interp:
             return self.ev_subscript(e)
         if isinstance(e, ast.BinOp):
             lt, rt = self.ev(e.left), self.ev(e.right)
+            if lt and lt[0] == "cum" and isinstance(e.op, ast.Sub) and isinstance(e.right, ast.Constant) and e.right.value == 1:
+                return ("groupend", lt[1])  # position of the last member of each group in a grouped (sorted) sequence
             # arithmetic keeps the space of an array operand (offsets, scalings)
             for t in (lt, rt):
                 if t and t[0] == "arr":
@@ -189,6 +192,21 @@ class Interp:
                 return ("set", t[2], u(c))  # sorted positions: the association with the domain is lost
             if t and t[0] == "set":
                 return t
+            return None
+        if name == "argsort" and (c.args or isinstance(f, ast.Attribute)):
+            base = c.args[0] if c.args and not (isinstance(f, ast.Attribute) and not isinstance(f.value, ast.Name)) else f.value
+            if isinstance(f, ast.Attribute) and isinstance(f.value, ast.Name) and f.value.id not in ("np", "numpy") and not c.args:
+                base = f.value
+            t = self.ev(base)
+            if t and t[0] == "map":
+                k = kwarg(c, "kind")
+                stable = isinstance(k, ast.Constant) and k.value in ("stable", "mergesort")
+                return ("sortperm", t[1], t[2], stable)   # positions of dom ordered by their class in cod
+            return None
+        if name == "cumsum" and c.args:
+            t = self.ev(c.args[0])
+            if t and t[0] == "arr":
+                return ("cum", t[1])
             return None
         if name == "logical_not" and c.args:
             t = self.ev(c.args[0])
@@ -338,6 +356,12 @@ class Interp:
                           f"`{u(s)}`: an array living on {fmt(X)} is selected with a boolean mask over {fmt(ti[1])}",
                           array=fmt(tv), index=fmt(ti))
                 return ("arr", ("sub", ti[1], ti[2], ti[3]))
+            if ti[0] == "lastmap":
+                self.need("R1", same(X, ti[2]), s,
+                          f"`{u(s)}`: an array living on {fmt(X)} is indexed with member positions of {fmt(ti[2])} (one per class of {fmt(ti[1])})",
+                          array=fmt(tv), index=fmt(ti))
+                self.last_gathers[id(s)] = ti[3]
+                return ("arr", ti[1])
             if ti[0] == "set":
                 self.need("R1", same(X, ti[1]), s,
                           f"`{u(s)}`: an array living on {fmt(X)} is indexed with positions of {fmt(ti[1])}",
@@ -352,6 +376,13 @@ class Interp:
                 self.need("R1", same(X, ti[1]), s, f"`{u(s)}`: array on {fmt(X)} indexed with positions of {fmt(ti[1])}",
                           array=fmt(tv), index=fmt(ti))
                 return ("arr", ("poss", ti[1], ti[2]))
+            return None
+        if tv[0] == "sortperm":
+            if ti[0] == "groupend":
+                self.need("R1", same(tv[2], ti[1]), s,
+                          f"`{u(s)}`: positions sorted by their class in {fmt(tv[2])} are cut at group ends counted on {fmt(ti[1])}",
+                          perm=fmt(tv), ends=fmt(ti))
+                return ("lastmap", ti[1], tv[1], tv[3])   # per class: one member position; the LAST occurrence iff the sort is stable
             return None
         if tv[0] == "map":
             D, C = tv[1], tv[2]
@@ -829,9 +860,19 @@ def _check_overwrite_def(ctx, mod, q, it: Interp, pm, fn, s: ast.Assign, cons: s
             if s2 is not s:
                 _check_overwrite_def(ctx, mod, q, it, pm, fn, s2, cons)
         return
+    while isinstance(v, ast.Call) and isinstance(v.func, ast.Attribute) and v.func.attr in PRESERVING_METHODS:
+        v = v.func.value
     if isinstance(v, ast.Subscript):
         idx, _ = it.column_index(v)
         ti = it.ev(idx) if idx is not None else None
+        if ti and ti[0] == "lastmap":
+            ctx.check("R3", bool(ti[3]), mod, q, s,
+                      "overwrite mode keeps the LAST occurrence of a repeated coordinate. Taking the last element of each group "
+                      "of an argsort of the inverse map is the last occurrence only if the sort is stable "
+                      "(np.argsort(..., kind='stable')); the default sort may reorder equal keys, so an arbitrary one of the "
+                      "written values is kept", construct=f"last occurrence via argsort (stable={bool(ti[3])})",
+                      facts={"index": fmt(ti)})
+            return
         if ti and ti[0] == "map" and ti[1:] == ("U", "A"):
             # gather through the first-occurrence map: only valid without duplicates
             verdicts = []
@@ -1055,6 +1096,12 @@ MUTANTS = [
        "            self._values[:, ind] = values[:, unique_2_all[is_mem]]", "R5"),
     _m("append-first-occurrence-raw", "            (self._values, unique_values[:, np.logical_not(is_mem)])",
        "            (self._values, values[:, unique_2_all[np.logical_not(is_mem)]])", "R5"),
+    dict(name="seed-last-occurrence-unstable-argsort", rule="R3", file=FILE, edits=[dict(file=FILE,
+         old="                unique_values = np.zeros(\n                    (self._values.shape[0], counts.size), dtype=float\n                )\n"
+             "                for i in range(unique_coords.shape[1]):\n"
+             "                    unique_values[:, i] = values[:, np.where(all_2_unique == i)[0][-1]]\n",
+         new="                sort_ind = np.argsort(all_2_unique)\n                last_occurrence = sort_ind[np.cumsum(counts) - 1]\n"
+             "                unique_values = values[:, last_occurrence].astype(float)\n")]),
     _m("get-sorted-positions", "_, _, is_mem, ind_list = intersect_sets(coord_array, self._coords)",
        "_, ind_list, is_mem, _ = intersect_sets(coord_array, self._coords)", "R4"),
     _m("get-guard-all-nonmembers", "if np.any(np.logical_not(is_mem)):", "if np.all(np.logical_not(is_mem)):", "R4"),
